@@ -89,7 +89,7 @@ def tlc(module, cfg_text, rundir, name=None, workers=NCPU, env=None, timeout=300
     cfg = rundir / f"{name}.cfg"
     cfg.write_text(cfg_text)
     meta = rundir / f"{name}.meta"
-    cmd = ["java", "-XX:+UseParallelGC", f"-Xmx{heap}", "-cp", TLA_JARS, "tlc2.TLC",
+    cmd = ["java", "-XX:+UseParallelGC", f"-Xmx{heap}", "-Xss256m", "-cp", TLA_JARS, "tlc2.TLC",
            "-workers", str(workers), "-metadir", str(meta), "-noGenerateSpecTE", "-config", str(cfg)]
     if deadlock:
         cmd.append("-deadlock")
